@@ -34,7 +34,7 @@ CONSTANTS Capacity,
 Max(a, b) == IF a > b THEN a ELSE b
 
 K(n) == KeyOf(n)
-KeySet == {KeyOf(n) : n \in Nodes}
+KeySet == {KeyOf(n) : n \in Nodes} \cup (IF UsesInternRef THEN IrKeys ELSE {})
 
 \* fn = the node whose inner_fn is stored in the DerivedNode (used when the node is re-verified as a dependency)
 NoRev == [p |-> FALSE, tu |-> 0, tv |-> 0, val |-> 0, deps |-> <<>>, fn |-> ""]
@@ -74,62 +74,73 @@ PushDep(st, kind, id, tu) ==
                 !.deps = IF n > 0 /\ st.deps[n].k = kind /\ st.deps[n].id = id
                          THEN [@ EXCEPT ![n] = d] ELSE Append(@, d)]
 
+RECURSIVE PushRegs(_, _)
+PushRegs(st, regs) == IF regs = <<>> THEN st ELSE PushRegs(PushDep(st, "fn", Head(regs).id, Head(regs).tu), Tail(regs))
+
 PutTop(top, n) == Append(SelectSeq(top, LAMBDA x : x # n), n)
 
-RECURSIVE Exec(_, _, _, _, _), DepsChanged(_, _, _, _, _, _, _), RunE(_, _), RunBody(_, _, _, _), SumKeys(_, _)
+RECURSIVE Exec(_, _, _, _, _), DepsChanged(_, _, _, _, _, _, _, _), RunE(_, _), RunBody(_, _, _, _), SumKeys(_, _)
 
-\* result of Exec: [db, did, tu, evs, panic]
-Reused(db, n, evs) == [db |-> db, did |-> "reused", tu |-> db.rv[K(n)].tu, evs |-> evs, panic |-> FALSE]
+\* result of Exec: [db, did, tu, evs, panic, regs]
+\* regs = the dependency registrations that this call performs in the ENCLOSING frame, in order: every
+\* execute_memoized_function ends with register_dependency_in_parent_memoized_fn, which pushes onto the
+\* frame on top of the dependency stack.  A dependency that is only VERIFIED (no frame of its own is
+\* pushed for the node being verified) therefore registers the nodes it re-verifies in the frame of
+\* whoever is executing — they become direct dependencies of that caller.
+Reg(id, tu) == [id |-> id, tu |-> tu]
+Reused(db, n, evs, regs) == [db |-> db, did |-> "reused", tu |-> db.rv[K(n)].tu, evs |-> evs, panic |-> FALSE,
+                             regs |-> Append(regs, Reg(K(n), db.rv[K(n)].tu))]
 
 Create(db, src, mp, n, evs0) ==
   LET r == RunBody(db, src, mp, n)
-  IN IF r.panic THEN [db |-> r.db, did |-> "error", tu |-> 1, evs |-> evs0 \o r.evs, panic |-> TRUE]
+  IN IF r.panic THEN [db |-> r.db, did |-> "error", tu |-> 1, evs |-> evs0 \o r.evs, panic |-> TRUE, regs |-> <<>>]
      ELSE [db |-> [r.db EXCEPT !.rv[K(n)] = [p |-> TRUE, tu |-> r.mx, tv |-> r.db.ep, val |-> r.val, deps |-> r.deps, fn |-> n]],
-           did |-> "recalc", tu |-> r.mx, evs |-> evs0 \o r.evs, panic |-> FALSE]
+           did |-> "recalc", tu |-> r.mx, evs |-> evs0 \o r.evs, panic |-> FALSE, regs |-> <<Reg(K(n), r.mx)>>]
 
-Update(db, src, mp, n, evs0) ==
+Update(db, src, mp, n, evs0, regs0) ==
   LET prev == db.rv[K(n)].val
       r == RunBody(db, src, mp, n)
-  IN IF r.panic THEN [db |-> r.db, did |-> "error", tu |-> 1, evs |-> evs0 \o r.evs, panic |-> TRUE]
+      regs == Append(regs0, Reg(K(n), r.mx))
+  IN IF r.panic THEN [db |-> r.db, did |-> "error", tu |-> 1, evs |-> evs0 \o r.evs, panic |-> TRUE, regs |-> regs0]
      ELSE IF r.val # prev
           THEN [db |-> [r.db EXCEPT !.rv[K(n)].deps = r.deps, !.rv[K(n)].tu = r.mx, !.rv[K(n)].val = r.val, !.rv[K(n)].fn = n],
-                did |-> "recalc", tu |-> r.mx, evs |-> evs0 \o r.evs, panic |-> FALSE]
+                did |-> "recalc", tu |-> r.mx, evs |-> evs0 \o r.evs, panic |-> FALSE, regs |-> regs]
           ELSE [db |-> [r.db EXCEPT !.rv[K(n)].deps = r.deps],     \* backdated: time_updated stays
-                did |-> "reused", tu |-> r.mx, evs |-> evs0 \o r.evs, panic |-> FALSE]
+                did |-> "reused", tu |-> r.mx, evs |-> evs0 \o r.evs, panic |-> FALSE, regs |-> regs]
 
 \* stackEmpty = dependency_stack.is_empty() at entry
 Exec(db, src, mp, n, stackEmpty) ==
   LET db1 == IF stackEmpty THEN [db EXCEPT !.top = PutTop(@, K(n))] ELSE db
   IN IF ~db1.rv[K(n)].p THEN Create(db1, src, mp, n, <<>>)
-     ELSE IF db1.rv[K(n)].tv = db1.ep THEN Reused(db1, n, <<>>)
+     ELSE IF db1.rv[K(n)].tv = db1.ep THEN Reused(db1, n, <<>>, <<>>)
      ELSE LET db2 == [db1 EXCEPT !.rv[K(n)].tv = db1.ep]
-              dc  == DepsChanged(db2, src, mp, n, 1, <<>>, IF FixTopLevel THEN FALSE ELSE stackEmpty)
-          IN IF dc.panic THEN [db |-> dc.db, did |-> "error", tu |-> 1, evs |-> dc.evs, panic |-> TRUE]
-             ELSE IF dc.changed THEN Update(dc.db, src, mp, n, dc.evs)
-             ELSE Reused(dc.db, n, dc.evs)
+              dc  == DepsChanged(db2, src, mp, n, 1, <<>>, IF FixTopLevel THEN FALSE ELSE stackEmpty, <<>>)
+          IN IF dc.panic THEN [db |-> dc.db, did |-> "error", tu |-> 1, evs |-> dc.evs, panic |-> TRUE, regs |-> dc.regs]
+             ELSE IF dc.changed THEN Update(dc.db, src, mp, n, dc.evs, dc.regs)
+             ELSE Reused(dc.db, n, dc.evs, dc.regs)
 
 SrcChangedSince(db, k, since) ==
   IF db.sn[k].p THEN db.sn[k].tu > since
   ELSE IF FixAbsent THEN db.tomb[k] > since ELSE TRUE
 
 \* iterate the dependency vector of n (as stored when the call started) from position i
-DepsChanged(db, src, mp, n, i, evs, se) ==
+DepsChanged(db, src, mp, n, i, evs, se, regs) ==
   LET deps == db.rv[K(n)].deps
-  IN IF i > Len(deps) THEN [db |-> db, changed |-> FALSE, evs |-> evs, panic |-> FALSE]
+  IN IF i > Len(deps) THEN [db |-> db, changed |-> FALSE, evs |-> evs, panic |-> FALSE, regs |-> regs]
      ELSE LET d == deps[i]
-              yes == [db |-> db, changed |-> TRUE, evs |-> evs, panic |-> FALSE]
-          IN IF d.st = db.ep THEN DepsChanged(db, src, mp, n, i + 1, evs, se)
+              yes == [db |-> db, changed |-> TRUE, evs |-> evs, panic |-> FALSE, regs |-> regs]
+          IN IF d.st = db.ep THEN DepsChanged(db, src, mp, n, i + 1, evs, se, regs)
              ELSE IF d.k = "src"
                   THEN IF SrcChangedSince(db, d.id, d.st) THEN yes
-                       ELSE DepsChanged(db, src, mp, n, i + 1, evs, se)
+                       ELSE DepsChanged(db, src, mp, n, i + 1, evs, se, regs)
              ELSE IF ~db.rv[d.id].p THEN yes
              ELSE IF db.rv[d.id].tu > d.st THEN yes
-             ELSE IF db.rv[d.id].deps = <<>> THEN DepsChanged(db, src, mp, n, i + 1, evs, se)
+             ELSE IF db.rv[d.id].deps = <<>> THEN DepsChanged(db, src, mp, n, i + 1, evs, se, regs)
              ELSE LET r == Exec(db, src, mp, db.rv[d.id].fn, se)   \* the STORED inner_fn
-                  IN IF r.panic THEN [db |-> r.db, changed |-> TRUE, evs |-> evs \o r.evs, panic |-> TRUE]
+                  IN IF r.panic THEN [db |-> r.db, changed |-> TRUE, evs |-> evs \o r.evs, panic |-> TRUE, regs |-> regs \o r.regs]
                      ELSE IF r.did \in {"recalc", "error"}
-                          THEN [db |-> r.db, changed |-> TRUE, evs |-> evs \o r.evs, panic |-> FALSE]
-                          ELSE DepsChanged(r.db, src, mp, n, i + 1, evs \o r.evs, se)
+                          THEN [db |-> r.db, changed |-> TRUE, evs |-> evs \o r.evs, panic |-> FALSE, regs |-> regs \o r.regs]
+                          ELSE DepsChanged(r.db, src, mp, n, i + 1, evs \o r.evs, se, regs \o r.regs)
 
 RunBody(db, src, mp, n) ==
   LET st0 == [db |-> db, src |-> src, mp |-> mp, deps |-> <<>>, mx |-> 1,
@@ -141,14 +152,15 @@ RunBody(db, src, mp, n) ==
 
 ReadKeyed(st, k) ==      \* Storage::get: panics when the source is absent
   IF ~st.db.sn[k].p THEN [st EXCEPT !.panic = TRUE]
-  ELSE [PushDep(st, "src", k, st.db.sn[k].tu) EXCEPT !.ret = st.src[k], !.ins = Append(@, <<"src", k>>)]
+  ELSE [PushDep(st, "src", k, st.db.sn[k].tu) EXCEPT !.ret = st.src[k], !.ins = Append(@, <<"src", k, st.src[k]>>)]
 
+SeenVal(st, k) == IF k = CNT THEN 0 ELSE st.src[k]     \* the counter's value is never observed
 ReadSingleton(st, k) ==  \* Storage::get_singleton -> Option
   IF st.db.sn[k].p
-  THEN [PushDep(st, "src", k, st.db.sn[k].tu) EXCEPT !.ret = st.src[k], !.ins = Append(@, <<"src", k>>)]
+  THEN [PushDep(st, "src", k, st.db.sn[k].tu) EXCEPT !.ret = st.src[k], !.ins = Append(@, <<"src", k, SeenVal(st, k)>>)]
   ELSE IF FixAbsent
-       THEN [PushDep(st, "src", k, Max(1, st.db.tomb[k])) EXCEPT !.ret = Absent, !.ins = Append(@, <<"src", k>>)]
-       ELSE [st EXCEPT !.ret = Absent, !.ins = Append(@, <<"src", k>>)]
+       THEN [PushDep(st, "src", k, Max(1, st.db.tomb[k])) EXCEPT !.ret = Absent, !.ins = Append(@, <<"src", k, SeenVal(st, k)>>)]
+       ELSE [st EXCEPT !.ret = Absent, !.ins = Append(@, <<"src", k, SeenVal(st, k)>>)]
 
 SortedKeys(S) == SelectSeq(KeyOrder, LAMBDA k : k \in S)   \* ascending iteration order of the BTreeMap in the harness
 
@@ -166,16 +178,39 @@ RunE(st, e) ==
     [] e.t = "fn"    ->
          LET r == Exec(st.db, st.src, st.mp, e.m, FALSE)
          IN IF r.panic THEN [st EXCEPT !.db = r.db, !.evs = @ \o r.evs, !.panic = TRUE]
-            ELSE LET s1 == PushDep([st EXCEPT !.db = r.db], "fn", K(e.m), r.tu)
+            ELSE LET s1 == PushRegs([st EXCEPT !.db = r.db], r.regs)
                      v == r.db.rv[K(e.m)].val
-                 IN [s1 EXCEPT !.ret = v, !.ins = Append(@, <<"fn", e.m>>),
+                 IN [s1 EXCEPT !.ret = v, !.ins = Append(@, <<"fn", e.m, v>>),
                                !.evs = (@ \o r.evs) \o <<[e |-> "ret", n |-> e.m, v |-> v]>>]
     [] e.t = "look"  ->  \* MemoRef::lookup_tracked: no execution, dependency on the stored revision
          IF ~st.db.rv[K(e.m)].p THEN [st EXCEPT !.panic = TRUE]
          ELSE LET s1 == PushDep(st, "fn", K(e.m), st.db.rv[K(e.m)].tu)
                   v == st.db.rv[K(e.m)].val
-              IN [s1 EXCEPT !.ret = v, !.ins = Append(@, <<"fn", e.m>>),
+              IN [s1 EXCEPT !.ret = v, !.ins = Append(@, <<"fn", e.m, v>>),
                             !.evs = Append(@, [e |-> "ret", n |-> e.m, v |-> v])]
+    [] e.t = "mkref" ->  \* call m, then Database::intern_ref(&value.1): node keyed by the VALUE, no dependencies
+         LET r == Exec(st.db, st.src, st.mp, e.m, FALSE)
+         IN IF r.panic THEN [st EXCEPT !.db = r.db, !.evs = @ \o r.evs, !.panic = TRUE]
+            ELSE LET s1 == PushRegs([st EXCEPT !.db = r.db], r.regs)
+                     v  == r.db.rv[K(e.m)].val
+                     id == IrKey(v)
+                     old == s1.db.rv[id]
+                     db2 == IF ~old.p
+                            THEN [s1.db EXCEPT !.rv[id] = [p |-> TRUE, tu |-> s1.db.ep, tv |-> s1.db.ep, val |-> v, deps |-> <<>>, fn |-> ""]]
+                            ELSE [s1.db EXCEPT !.rv[id].tv = s1.db.ep]      \* (re-points the raw pointer if it changed)
+                     s2 == PushDep([s1 EXCEPT !.db = db2], "fn", id, db2.rv[id].tu)
+                 IN [s2 EXCEPT !.ret = v, !.ins = Append(@, <<"fn", e.m, v>>),
+                               !.evs = (@ \o r.evs) \o <<[e |-> "ret", n |-> e.m, v |-> v]>>]
+    [] e.t = "deref" ->  \* call m (returns the MemoRef), then MemoRef::lookup_tracked on the intern_ref node
+         LET r == Exec(st.db, st.src, st.mp, e.m, FALSE)
+         IN IF r.panic THEN [st EXCEPT !.db = r.db, !.evs = @ \o r.evs, !.panic = TRUE]
+            ELSE LET s1 == PushRegs([st EXCEPT !.db = r.db], r.regs)
+                     v  == r.db.rv[K(e.m)].val
+                     id == IrKey(v)
+                 IN IF ~s1.db.rv[id].p THEN [s1 EXCEPT !.evs = @ \o r.evs, !.panic = TRUE]
+                    ELSE LET s2 == PushDep(s1, "fn", id, s1.db.rv[id].tu)
+                         IN [s2 EXCEPT !.ret = v, !.ins = Append(@, <<"fn", e.m, v>>),
+                                       !.evs = (@ \o r.evs) \o <<[e |-> "ret", n |-> e.m, v |-> v]>>]
     [] e.t = "add"   -> LET s1 == RunE(st, e.a)
                             s2 == RunE(s1, e.b)
                         IN IF s1.panic THEN s1 ELSE [s2 EXCEPT !.ret = s1.ret + s2.ret]
@@ -228,7 +263,10 @@ GcB(db) ==
                         !.rv = [c \in KeySet |-> IF c \in keepS THEN db.rv[c] ELSE NoRev]],
       panic |-> \E c \in keepS : ~db.rv[c].p]
 
-LookupB(db, n) == IF db.rv[K(n)].p THEN [t |-> "val", v |-> db.rv[K(n)].val] ELSE [t |-> "panic"]
+LookupB(db, n) ==
+  IF ~db.rv[K(n)].p THEN [t |-> "panic"]
+  ELSE IF n = "refMaker" /\ ~db.rv[IrKey(db.rv[K(n)].val)].p THEN [t |-> "panic"]   \* the inner MemoRef is dereferenced too
+  ELSE [t |-> "val", v |-> db.rv[K(n)].val]
 
 \* ---- epoch normalisation (state-space reduction: only the ORDER of epochs matters) ----------
 EpochsOf(db) ==
